@@ -464,7 +464,7 @@ func main() {
 				u, v := ends[i/len(ends)], ends[i%len(ends)]
 				for shift := 0; shift <= maxShift; shift++ {
 					for run := 0; run <= maxRun; run++ {
-						t.DoN(15, func() string { return fmt.Sprintf("payload a*%d %x a*%d %x", shift, u, run, v) }, func() *explore.Fail {
+						t.DoN(36, func() string { return fmt.Sprintf("payload a*%d %x a*%d %x", shift, u, run, v) }, func() *explore.Fail {
 							var s []byte
 							for k := 0; k < shift; k++ {
 								s = append(s, 'a')
@@ -476,26 +476,53 @@ func main() {
 							s = append(s, v...)
 							want := utf8.Valid(s)
 							for _, bufsz := range []int{1, 3, 8, 9, 64} {
-								for _, chunk := range []int{0, 1, 8} {
-									src := env.NewSrc(s)
-									src.Policy = env.FixedChunk(chunk)
-									ur := wsutil.NewUTF8Reader(src)
-									buf := make([]byte, bufsz)
-									var err error
-									total := 0
-									for {
-										var n int
-										n, err = ur.Read(buf)
-										total += n
-										if err != nil {
-											break
+								for _, chunk := range []int{0, 1, 8, 16, 17, 20} {
+									if chunk > 8 && bufsz < 64 {
+										continue
+									}
+									// what the caller's buffer holds beyond the bytes of this Read is none of
+									// the validator's business: modes 0..2 fill it with continuation / invalid /
+									// ASCII bytes, modes 3..5 put exactly 1..3 continuation bytes (then ASCII)
+									// right behind the bytes the Read is going to deliver, so that stale bytes
+									// would complete a sequence the chunk cut in two
+									for mode := 0; mode < 6; mode++ {
+										if bufsz < 64 && mode != (chunk+bufsz)%6 {
+											continue
 										}
-									}
-									if got := err == io.EOF && ur.Valid(); got != want {
-										return explore.Failf("verdict-depends-on-block-width", "payload %x buffer=%d chunk=%d: err=%v Valid=%v want valid=%v", s, bufsz, chunk, err, ur.Valid(), want)
-									}
-									if err == io.EOF && total != len(s) {
-										return explore.Failf("bytes-lost", "read %d of %d", total, len(s))
+										src := env.NewSrc(s)
+										src.Policy = env.FixedChunk(chunk)
+										ur := wsutil.NewUTF8Reader(src)
+										buf := make([]byte, bufsz)
+										var err error
+										total := 0
+										for {
+											n0 := len(s) - src.Off
+											if chunk > 0 && chunk < n0 {
+												n0 = chunk
+											}
+											for k := range buf {
+												switch {
+												case mode < 3:
+													buf[k] = []byte{0x80, 0xFF, 'a'}[mode]
+												case k >= n0 && k < n0+mode-2:
+													buf[k] = 0x98
+												default:
+													buf[k] = 'a'
+												}
+											}
+											var n int
+											n, err = ur.Read(buf)
+											total += n
+											if err != nil {
+												break
+											}
+										}
+										if got := err == io.EOF && ur.Valid(); got != want {
+											return explore.Failf("verdict-depends-on-block-width", "payload %x buffer=%d chunk=%d stale-mode=%d: err=%v Valid=%v want valid=%v", s, bufsz, chunk, mode, err, ur.Valid(), want)
+										}
+										if err == io.EOF && total != len(s) {
+											return explore.Failf("bytes-lost", "read %d of %d", total, len(s))
+										}
 									}
 								}
 							}
